@@ -236,13 +236,27 @@ func runC05(c *runCtx) {
 				}
 			}
 		}
-		for _, p := range []string{filepath.Join(dir, "missing"), dir} {
-			m, err := mimetype.DetectFile(p)
-			c.stats.note("file-error", []byte(p), 0, true)
-			if err == nil || m == nil || m.String() != "application/octet-stream" || m.Parent() != nil {
-				c.propfail("C05", fmt.Sprintf("DetectFile on %s: expected application/octet-stream with an error, got %v / %v", p, m, err))
+		// error paths under every kind of limit (unlimited, default, tiny, huge): a missing path, a directory, an
+		// unreadable file
+		locked := filepath.Join(dir, "locked.txt")
+		os.WriteFile(locked, []byte("plain text, unreadable"), 0o000)
+		paths := []string{filepath.Join(dir, "missing"), dir, filepath.Join(dir, "f0.bin", "below-a-file")}
+		if f, e := os.Open(locked); e != nil {
+			paths = append(paths, locked)
+		} else {
+			f.Close() // running as root: permissions do not bite
+		}
+		for _, l := range []uint32{3072, 0, 1, 1 << 22} {
+			for _, p := range paths {
+				mimetype.SetLimit(l)
+				m, err := mimetype.DetectFile(p)
+				c.stats.note("file-error", []byte(fmt.Sprintf("%s:%d", p, l)), 0, true)
+				if err == nil || m == nil || m.String() != "application/octet-stream" || m.Parent() != nil || m.Extension() != "" {
+					c.propfail(c.errProp(), fmt.Sprintf("DetectFile on %s at limit %d: expected exactly application/octet-stream together with the error, got %v (parent %v) / err=%v", filepath.Base(p), l, m, parentOf(m), err))
+				}
 			}
 		}
+		mimetype.SetLimit(3072)
 	}
 }
 
@@ -260,4 +274,19 @@ func init() {
 		runC05(c)
 		c.finish()
 	}
+}
+
+func parentOf(m *mimetype.MIME) string {
+	if m == nil || m.Parent() == nil {
+		return "nil"
+	}
+	return m.Parent().String()
+}
+
+// the property the error-path cases are reported under: C02 when this stream runs for C02, else C05
+func (c *runCtx) errProp() string {
+	if c.prop == "C02" {
+		return "C02"
+	}
+	return "C05"
 }
